@@ -368,3 +368,9 @@ def run(ctx):
         for c in f.calls("snprintf"):
             fmts.add(f.nodes[f.strip(f.args(c)[2])].get("v"))
     ctx.check(e4, len(fmts) == 1 and list(fmts)[0] == '{"b":%.3f,"d":%.3f,"p":%.3f,"t":"%s"', "json:format", "src/decoder.c", "the three formatters do not share one object format (%s)" % sorted(map(str, fmts)))
+
+    # the "w" lists come from decoder_alignment: an aligner kept across utterances makes the JSON say what the
+    # previous utterance's iterators said (seed C14-11)
+    from . import c04
+    from ..report import Only
+    c04.run(Only(ctx, ("EFFECT.A6-aligner-cache",)))
